@@ -315,7 +315,7 @@ func runRaw(t *testing.T, cfg rawCfg, seed int64) (sim.Result, rec.Ev) {
 		c := &rawScn{s: s, cfg: cfg, pipes: map[string]*vt.Pipe{}, id2p: map[uint32]string{}, p2id: map[string]uint32{},
 			rng: rand.New(rand.NewSource(seed))}
 		s.Net.Decode = rawDecode
-		rp := &hx.RecProto{Protocol: cfg.P.mk(), Rec: s.Rec}
+		rp := &hx.RecProto{Protocol: cfg.P.mk(), Rec: s.Rec, Early: true}
 		c.sock = protocol.MakeSocket(rp)
 		hx.Hook(c.sock, s.Rec, func(ev, name string, p mangos.Pipe) { c.id2p[p.ID()] = name; c.p2id[name] = p.ID() })
 		// options: a protocol that does not have one keeps its built-in behaviour
